@@ -70,6 +70,7 @@ StepOK ==
   /\ MonAuth(st, a, roles, ok)
   /\ MonBuffer(st, a, ok)
   /\ MonRejectUnchanged(st, a, ok, st')
+  /\ MonFrame(st, a, ok, st')
   /\ MonMay(st, a, roles, ok)
   /\ ~ok => st' = st
 StepProps == [][StepOK]_vars
